@@ -17,6 +17,9 @@ use crate::{
 };
 
 pub struct ProverRun {
+    /// false: the reference prover did not reproduce the proof from the read-back, so `nonces.r` / `nonces.s` are a guess from
+    /// the RNG trace (the blinding coordinates of A, L, R, A1, B are exact either way)
+    pub validated: bool,
     pub nonces: Nonces,
     pub rng_scalars: Vec<Scalar>,
     pub bytes: Vec<u8>,
@@ -60,6 +63,7 @@ pub fn observed_prove_src(cfg: &Cfg, wit: &Wit, ctx: &Ctx, rng: Option<&mut HRng
     res.validated += 1;
     let rng_scalars = trace_rng_scalars(&trace);
     let mut nonces = nonces;
+    let validated = out.proof == rp;
     if out.proof != rp {
         // the library's prover is not the reference protocol (C02 / C19's business). The blinding coordinates of A, L, R,
         // A1, B are still what they are; r and s (which need the reference folding to be solved for) are then taken from
@@ -73,6 +77,7 @@ pub fn observed_prove_src(cfg: &Cfg, wit: &Wit, ctx: &Ctx, rng: Option<&mut HRng
         }
     }
     Some(ProverRun {
+        validated,
         nonces,
         rng_scalars,
         bytes: F::to_bytes(&proof),
@@ -279,6 +284,12 @@ fn zero_draw_case(cfg: Cfg, seeded: bool) -> Box<dyn Case> {
                 *res.outcome_counter("zero-output-deviations") += 1;
                 if run.rng_scalars.iter().filter(|x| **x == Scalar::ZERO).count() < window {
                     res.machinery_error(format!("{}: the deviation did not take effect", sub));
+                }
+                if !run.validated {
+                    // r and s cannot be read back exactly (the proof is not the reference protocol's: C02 / C19); under a deviation
+                    // the guess from the trace is not usable, so this run is not judged
+                    *res.outcome_counter("read-back-not-validated(skipped)") += 1;
+                    continue;
                 }
                 check_within(&run, &sub, &mut res);
                 // every RNG-derived nonce is an output of the generator
